@@ -220,3 +220,18 @@ package dotgit
 //gvc:  opt frame args
 //gvc:  ensures clean: result != nil ==> d.objectMap == nil
 //gvc:end
+
+// ObjectsWithPrefix / Objects hand out (a window of) the cached sorted list of
+// loose object ids under ExclusiveAccess. The slice they return has no spare
+// capacity, so that a caller appending to it (ObjectStorage.HashesWithPrefix
+// adds the packed matches) gets a new backing array instead of overwriting the
+// entries that follow the window in the cache (property C18: an object that
+// was written stays visible in listings and prefix searches).
+//gvc:func (*DotGit).ObjectsWithPrefix
+//gvc:  props C18
+//gvc:  theory int
+//gvc:  opt coarse
+//gvc:  opt frame args
+//gvc:  results hashes err
+//gvc:  ensures tight: err == nil && old(d.options.ExclusiveAccess) && len(prefix) >= 1 && len(hashes) > 0 ==> cap(hashes) == len(hashes)
+//gvc:end
